@@ -5,7 +5,9 @@
 //! stdin (sub-command `run`), one case per line:
 //!   (Vec <variant> [id ...] <extra-capacity> <offset> <fail>)
 //!   (Box <variant> <id> <offset> <fail>)
-//!   <variant> ::= Same | Same4 | DiffSmall | DiffBig | DiffAlign | Zst
+//!   <variant> ::= Same | Same4 | DiffSmall | DiffBig | DiffAlign | Zst | Fold
+//!   (Fold: the functions are reached through the real `TypeFoldable::try_fold_with` impls of `Vec<T>` /
+//!   `Box<T>` in boring_impls.rs, with an element type whose fold calls back into a scripted folder)
 //!   <fail>    ::= NoFail | (FailAt <call-index> Err) | (FailAt <call-index> Panic)
 //! stdout: (Log [ev ...]) with
 //!   (OCall id) (ODrop ST|SU id) OBad ODealloc OHandOver (OReturn ROk|RErr|RPanic)
@@ -332,6 +334,135 @@ fn drive_box<T: Elem, U: Elem>(id: u64, off: u64, fail: Option<(usize, Mode)>) {
 }
 
 // ---------------------------------------------------------------------------------------
+// through `TypeFoldable for Vec<T>` / `Box<T>` (chalk-ir/src/fold/boring_impls.rs)
+
+use chalk_integration::interner::ChalkIr;
+use chalk_ir::fold::{FallibleTypeFolder, TypeFoldable};
+use chalk_ir::{DebruijnIndex, InferenceVar, Ty, TyVariableKind};
+
+static FOLD_OFF: AtomicUsize = AtomicUsize::new(0);
+
+/// Folds to itself (`T = U`): an unmapped value carries TAG_T, a mapped one TAG_U.
+#[derive(Debug)]
+struct TF { id: u64, tag: u64 }
+
+impl TF {
+    fn read(&self) -> Option<(u8, u64)> {
+        if self.tag == TAG_T as u64 { Some((K_DROP_T, self.id)) }
+        else if self.tag == TAG_U as u64 { Some((K_DROP_U, self.id)) }
+        else { None }
+    }
+}
+
+impl Drop for TF {
+    fn drop(&mut self) {
+        match self.read() {
+            Some((k, id)) => push(k, id),
+            None => push(K_BAD, 3),
+        }
+    }
+}
+
+impl TypeFoldable<ChalkIr> for TF {
+    fn try_fold_with<E>(
+        self,
+        folder: &mut dyn FallibleTypeFolder<ChalkIr, Error = E>,
+        outer_binder: DebruijnIndex,
+    ) -> Result<Self, E> {
+        let id = match self.read() {
+            Some((K_DROP_T, id)) => id,
+            _ => { push(K_BAD, 4); 0 }
+        };
+        push(K_CALL, id);
+        // the folder decides: Ok, Err (`self` dropped by `?`) or panic (`self` dropped while unwinding)
+        let ty = folder.try_fold_inference_ty(InferenceVar::from(0u32), TyVariableKind::General, outer_binder)?;
+        drop(ty);
+        std::mem::forget(self);
+        Ok(TF { id: id + FOLD_OFF.load(SeqCst) as u64, tag: TAG_U as u64 })
+    }
+}
+
+struct Script { k: usize, fail: Option<(usize, Mode)> }
+
+impl FallibleTypeFolder<ChalkIr> for Script {
+    type Error = ();
+    fn as_dyn(&mut self) -> &mut dyn FallibleTypeFolder<ChalkIr, Error = ()> { self }
+    fn interner(&self) -> ChalkIr { ChalkIr }
+    fn try_fold_inference_ty(&mut self, var: InferenceVar, kind: TyVariableKind, _: DebruijnIndex) -> Result<Ty<ChalkIr>, ()> {
+        let i = self.k;
+        self.k += 1;
+        if let Some((pos, mode)) = self.fail {
+            if pos == i {
+                match mode {
+                    Mode::Err => return Err(()),
+                    Mode::Panic => resume_unwind(Box::new(Stop)),
+                }
+            }
+        }
+        Ok(var.to_ty(ChalkIr, kind))
+    }
+}
+
+fn drive_vec_fold(ids: &[u64], extra: usize, off: u64, fail: Option<(usize, Mode)>) {
+    FOLD_OFF.store(off as usize, SeqCst);
+    begin();
+    let mut v: Vec<TF> = Vec::with_capacity(ids.len() + extra);
+    for &id in ids {
+        v.push(TF { id, tag: TAG_T as u64 });
+    }
+    let p = v.as_ptr() as usize;
+    let cap = v.capacity();
+    let heap = cap > 0;
+    if heap {
+        watch(p, cap * std::mem::size_of::<TF>(), std::mem::align_of::<TF>());
+    }
+    let mut folder = Script { k: 0, fail };
+    let r = catch_unwind(AssertUnwindSafe(|| v.try_fold_with(&mut folder, DebruijnIndex::INNERMOST)));
+    match r {
+        Ok(Ok(res)) => {
+            if heap && res.as_ptr() as usize == p && res.capacity() == cap {
+                push(K_HANDOVER, 0);
+            }
+            push(K_RETURN, 0);
+            push(K_RESULT, res.len() as u64);
+            drop(res);
+        }
+        Ok(Err(())) => push(K_RETURN, 1),
+        Err(payload) => {
+            push(K_RETURN, 2);
+            drop(payload);
+        }
+    }
+    end();
+}
+
+fn drive_box_fold(id: u64, off: u64, fail: Option<(usize, Mode)>) {
+    FOLD_OFF.store(off as usize, SeqCst);
+    begin();
+    let b: Box<TF> = Box::new(TF { id, tag: TAG_T as u64 });
+    let p = &*b as *const TF as usize;
+    watch(p, std::mem::size_of::<TF>(), std::mem::align_of::<TF>());
+    let mut folder = Script { k: 0, fail };
+    let r = catch_unwind(AssertUnwindSafe(|| b.try_fold_with(&mut folder, DebruijnIndex::INNERMOST)));
+    match r {
+        Ok(Ok(res)) => {
+            if &*res as *const TF as usize == p {
+                push(K_HANDOVER, 0);
+            }
+            push(K_RETURN, 0);
+            push(K_RESULT, 1);
+            drop(res);
+        }
+        Ok(Err(())) => push(K_RETURN, 1),
+        Err(payload) => {
+            push(K_RETURN, 2);
+            drop(payload);
+        }
+    }
+    end();
+}
+
+// ---------------------------------------------------------------------------------------
 // case syntax
 
 fn parse_fail(s: &Sexp) -> Result<Option<(usize, Mode)>, String> {
@@ -387,6 +518,7 @@ fn run_case(c: &Sexp) -> Result<Sexp, String> {
                 "DiffBig" => drive_vec::<T16, U32B>(&ids, extra, off, fail),
                 "DiffAlign" => drive_vec::<T8, U8A>(&ids, extra, off, fail),
                 "Zst" => drive_vec::<TZ, UZ>(&ids, extra, off, fail),
+                "Fold" => drive_vec_fold(&ids, extra, off, fail),
                 v => return Err(format!("unknown variant {}", v)),
             }
         }
@@ -403,6 +535,7 @@ fn run_case(c: &Sexp) -> Result<Sexp, String> {
                 "DiffBig" => drive_box::<T16, U32B>(id, off, fail),
                 "DiffAlign" => drive_box::<T8, U8A>(id, off, fail),
                 "Zst" => drive_box::<TZ, UZ>(id, off, fail),
+                "Fold" => drive_box_fold(id, off, fail),
                 v => return Err(format!("unknown variant {}", v)),
             }
         }
